@@ -74,7 +74,7 @@ const KINDS: [Kind; 19] = [
 const CAPS: [usize; 3] = [0, 1, 2];
 const LETTERS: [&str; 5] = ["create", "drop oldest handle", "drop newest handle", "finish oldest sound", "callback"];
 const NL: u64 = 5;
-const STALE_CASES: u64 = 8 + RECYCLE_KINDS.len() as u64;
+const STALE_CASES: u64 = 9 + RECYCLE_KINDS.len() as u64;
 /// kinds taken through 12 create / drop / callback cycles at capacity 1 and 2 (more removals than any ring holds)
 const RECYCLE_KINDS: [Kind; 8] = [Kind::Clock, Kind::Tweener, Kind::Lfo, Kind::Listener, Kind::SendTrack, Kind::SubTrack, Kind::SpatialTrack, Kind::ProbeSoundMain];
 pub const E2_CASES: u64 = 6;
@@ -603,8 +603,8 @@ fn recycle(kind: Kind, ctx: &mut Ctx) {
 }
 
 fn stale_ids(which: u64, ctx: &mut Ctx) {
-	if which >= 8 {
-		recycle(RECYCLE_KINDS[(which - 8) as usize], ctx);
+	if which >= 9 {
+		recycle(RECYCLE_KINDS[(which - 9) as usize], ctx);
 		return;
 	}
 	ctx.evals += 1;
@@ -836,6 +836,70 @@ fn stale_ids(which: u64, ctx: &mut Ctx) {
 						ctx.transitions += 8;
 						ctx.nontrivial(hash64(&("siblings", persisting_sounds, alive_mask, adopted_first)));
 					}
+				}
+			}
+		}
+		8 => {
+			// a track whose handle is dropped while something keeps it alive, and whose playback state changes AFTER the drop
+			// (a pause fade that ends later, a pause / resume issued just before the drop): it is still removed once nothing
+			// keeps it alive
+			for keeper in 0..2 {
+				for cmd in 0..3 {
+					let mut m = rig::manager(sr, 4, rig::caps(4), MainTrackBuilder::new());
+					let mut t = m.add_sub_track(TrackBuilder::new().persist_until_sounds_finish(keeper == 0).sub_track_capacity(2).sound_capacity(2)).unwrap();
+					let mut child = None;
+					let probe = if keeper == 0 {
+						t.play(ProbeSoundData::new((0.1, 0.0), (0.1, 0.0))).expect("play")
+					} else {
+						let mut c = t.add_sub_track(TrackBuilder::new()).unwrap();
+						let p = c.play(ProbeSoundData::new((0.1, 0.0), (0.1, 0.0))).expect("play");
+						child = Some(c);
+						p
+					};
+					cb(&mut m, &mut buf, ctx, "state change after drop");
+					let fade = Tween { start_time: StartTime::Immediate, duration: Duration::from_secs(2), easing: Easing::Linear };
+					match cmd {
+						0 => t.pause(fade),
+						1 => {
+							t.pause(Tween { duration: Duration::ZERO, ..fade });
+							cb(&mut m, &mut buf, ctx, "state change after drop");
+							t.resume(fade);
+						}
+						_ => {
+							t.pause(fade);
+							t.resume(fade);
+						}
+					}
+					drop(t);
+					// the fades (16 frames) end two callbacks later: Pausing -> Paused / Resuming -> Playing after the drop
+					for _ in 0..4 {
+						cb(&mut m, &mut buf, ctx, "state change after drop");
+					}
+					let before = m.num_sub_tracks();
+					probe.finished.store(true, Ordering::SeqCst);
+					drop(child);
+					for _ in 0..4 {
+						cb(&mut m, &mut buf, ctx, "state change after drop");
+					}
+					let what = format!(
+						"{}; {}; drop(handle); 4 callbacks of 8 frames; then {}; 4 callbacks",
+						["persist_until_sounds_finish(true) track with a sound", "track with a live child track"][keeper],
+						["pause(2 s fade)", "pause(instant), one callback, resume(2 s fade)", "pause(2 s fade); resume(2 s fade) in one interval"][cmd],
+						["the sound finishes", "the sound finishes and the child's handle is dropped"][keeper]
+					);
+					if before != 1 {
+						ctx.fail("a dropped track is removed (or miscounted) although something keeps it alive :: state change after the drop", format!("{}: num_sub_tracks {} before the keeper went away, expected 1", what, before));
+					}
+					if m.num_sub_tracks() != 0 {
+						ctx.fail("a dropped track whose playback state changed after the drop is never removed :: state change after the drop", format!("{}: num_sub_tracks {} at the end, expected 0", what, m.num_sub_tracks()));
+					}
+					// and the slots are usable again
+					let again: Vec<_> = (0..4).map(|_| m.add_sub_track(TrackBuilder::new())).collect();
+					if again.iter().any(|r| r.is_err()) {
+						ctx.fail("sub-track slots are not free again after everything was removed :: state change after the drop", what.clone());
+					}
+					ctx.transitions += 10;
+					ctx.nontrivial(hash64(&("state after drop", keeper, cmd)));
 				}
 			}
 		}
@@ -1149,6 +1213,11 @@ pub fn e2_long(tier: Tier, which: u64, ctx: &mut Ctx) {
 	}
 	let kind = which % 2; // 0 sounds, 1 sub-tracks
 	let cap = [1usize, 2][(which / 2) as usize];
+	if cap == 2 && tier == Tier::Quick {
+		// (capacity 2 roughly doubles the schedules: thorough tier only)
+		ctx.count("e2_long_capacity_2_left_to_the_thorough_tier", 1);
+		return;
+	}
 	let cfg = Config { filter: filt, horizon: 3000, max_spin_rounds: 8, record_sites: true, ..Default::default() };
 	#[derive(Debug, Clone, Default, PartialEq)]
 	struct Obs {
